@@ -166,6 +166,10 @@ fn viol(o: &mut Obs, spec: &WSpec, sig: &str, case: &str, detail: &str) {
     if matches!(spec, WSpec::Chain(..) | WSpec::Limit(..)) {
         o.viol("C12", &format!("{sig}:{top}"), case, &d);
     }
+    if sig.starts_with("guard-bytes-modified") {
+        // a write outside the memory the target was given is also a C02 observation
+        o.viol("C02", &format!("{sig}:{top}"), case, &d);
+    }
 }
 
 /// checks after every step; returns false when a violation was reported
